@@ -109,6 +109,49 @@ def run(ctx, rep):
             else:
                 sig = "passthrough-altered:" + shape
             rep.violation(sig, f"line {k} {lines[k]!r} was not passed through unchanged (written: {chunk[-120:]!r})", dict(case, line=k))
+    # 2b. the real binary with --relative-paths (GIT_PREFIX set): the diff-stat handler, which the machine model leaves out
+    #     (relative paths are off there), rewrites ` path | n ++--` lines; only lines that begin with a blank, met before the
+    #     first diff, are diff-stat lines -- anything else that merely contains such text must pass through unchanged
+    STAT_LIKE = ["Reviewed-by: tool src/main.rs | 14 checks", "see sub/a.txt | 3 +++ for details", "x | 1", "| 2 +-",
+                 "Tested: lib/x.py | 200 ok", "notes.md | Bin 0 -> 12 bytes", "=> sub/dir/f.c | 7 ++++---"]
+    jobs = []
+    for _ in range(ctx.n(40, 600)):
+        lines, must = [], []
+        def put(l, m):
+            lines.append(l); must.append(m)
+        for _c in range(rng.randint(1, 2)):
+            if _c or rng.random() < 0.8:             # text after a diff section only behind a commit line (known finding otherwise)
+                put("commit " + M.HASH, False); put("Author: A U Thor <a@example.com>", True); put("Date:   Mon Jan 1 00:00:00 2024 +0000", True)
+                put("", True)
+            for _k in range(rng.randint(1, 5)):
+                t = rng.choice(STAT_LIKE) if rng.random() < 0.6 else gen_text_line(rng)
+                if rng.random() < 0.3:
+                    t = "    " + t                      # a genuine candidate for a diff-stat line: not required to pass through
+                put(t, not t.startswith(" "))
+            if rng.random() < 0.5:
+                for l in M.gen_file(rng, kind="modified")["lines"]:
+                    put(l, False)
+        jobs.append((lines, must, rng.choice(["sub/", "sub/dir/", "a b/"])))
+    from ..core import parallel_map, b64
+    def one(j):
+        lines, must, prefix = j
+        return ctx.run_delta(["--no-gitconfig", "--relative-paths"], ("\n".join(lines) + "\n").encode("utf-8", "surrogateescape"),
+                             env={"GIT_PREFIX": prefix})
+    for (lines, must, prefix), (rc, out, err) in zip(jobs, parallel_map(one, jobs)):
+        data = ("\n".join(lines) + "\n").encode("utf-8", "surrogateescape")
+        case = dict(kind="relative-paths", args=["--no-gitconfig", "--relative-paths"], env={"GIT_PREFIX": prefix}, input_b64=b64(data))
+        rep.case(key=("relpaths", prefix, tuple(lines)), nontrivial=sum(must) >= 2, sample=dict(shape="relative-paths", head=lines[:4]))
+        rep.count("shape:relative-paths")
+        if rc != 0:
+            rep.violation(f"exit:{rc}", f"delta --relative-paths exited {rc}: {err[-200:]!r}", case); continue
+        olines = set(out.split(b"\n"))
+        for l, m in zip(lines, must):
+            want = l.encode("utf-8", "surrogateescape")
+            if want.endswith(b"\r"):
+                want = want[:-1]
+            if m and want not in olines:
+                rep.violation("passthrough-altered:relative-paths", f"line {l!r} was not passed through unchanged with --relative-paths", case)
+                break
     # 3. ingest_line: model DeltaModel/Ingest.lean, hook machine.ingest, binary pass-through (b-ansi, vlib/ingest.py)
     from .. import ingest
     ingest.ingest_check(ctx, rep)
@@ -116,6 +159,10 @@ def run(ctx, rep):
 
 def replay(ctx, rep, obj):
     c = obj["case"]
+    if c.get("kind") == "relative-paths":
+        import base64
+        rc, out, err = ctx.run_delta(c["args"], base64.b64decode(c["input_b64"]), env=c["env"])
+        print(out.decode("utf-8", "replace")); return
     if str(c.get("kind", "")).startswith("ingest-"):
         from .. import ingest
         return ingest.ingest_replay(ctx, rep, c)
